@@ -303,13 +303,18 @@ func (r *intraProxyStreamReceiver) recvReplicationMessages() error {
 			st.UpdateStreamReplicationMessages(r.streamID, exclusiveHighWatermark)
 			st.UpdateStream(r.streamID)
 
-			// Track last watermark for late-registering shards
-			r.lastWatermarkMu.Lock()
-			r.lastWatermark = &replicationv1.WorkflowReplicationMessages{
-				ExclusiveHighWatermark: exclusiveHighWatermark,
-				Priority:               priority,
+			// Track last watermark for late-registering shards. Only a watermark-only message speaks for the whole source
+			// shard (everything below it has been handed to its owner); the high watermark of a task-bearing message is that
+			// of this target's slice of a batch, and replaying it to another target would let that target acknowledge
+			// past tasks of its own that are still on their way.
+			if len(msgs.Messages.ReplicationTasks) == 0 {
+				r.lastWatermarkMu.Lock()
+				r.lastWatermark = &replicationv1.WorkflowReplicationMessages{
+					ExclusiveHighWatermark: exclusiveHighWatermark,
+					Priority:               priority,
+				}
+				r.lastWatermarkMu.Unlock()
 			}
-			r.lastWatermarkMu.Unlock()
 
 			r.logger.Debug(fmt.Sprintf("Receiver received ReplicationTasks: exclusive_high=%d ids=%v", exclusiveHighWatermark, ids))
 
